@@ -21,6 +21,11 @@ def run(tier, replay=None):
     res = json.load(open(os.path.join(ck.work, "result.json")))
     for f in res["failures"]:
         ck.failure(f["signature"], f["what"], {"input": f["input"]})
+    # the harness records at most 4 inputs per signature; the measured totals are in the distribution
+    for sig in list(ck.known_hits):
+        ck.known_hits[sig] = res["distribution"].get("failures:" + sig, ck.known_hits[sig])
+    for sig in list(ck.sig_counts):
+        ck.sig_counts[sig] = res["distribution"].get("failures:" + sig, ck.sig_counts[sig])
 
     def lines(name):
         p = os.path.join(ck.work, name)
@@ -33,7 +38,9 @@ def run(tier, replay=None):
     if ck.coq_ok:
         gm = ck.coq_eval_cases(lines("cases_graph4.txt"), hdr, "graph4_case", "graph4_mismatches", tag="graph4")
     if ck.coq_ok:
-        pm = ck.coq_eval_cases(lines("cases_run.txt"), hdr, "run_case", "run_mismatches", tag="run")
+        rl = lines("cases_run.txt")
+        pm = ck.coq_eval_cases(rl, hdr, "run_case", "run_mismatches", tag="run",
+                               shards=(16 if len(rl) < 5000 else 96))
     if not ck.coq_ok:
         if not ck.violations:
             ck.unproved("the Eval development no longer checks: " + ck.coq_error,
